@@ -30,7 +30,7 @@ type KqSnap struct {
 	Kq, Pipe, Vnode int
 	VnodePaths      []string
 	MapSizes        []int
-	MapKeys         []string // string keys of every map reachable from the backend
+	MapKeys         []string            // string keys of every map reachable from the backend
 	KeyTabs         map[string][]string // key -> names of the struct fields (tables) that hold it
 }
 
